@@ -1,6 +1,6 @@
 // ===== spec/ipa_spec.rs : inner-product-argument verifier relation (shared by check and batch_check units) =====
 // ======================= specification =======================
-pub uninterp spec fn ro_chal(bytes: Seq<u8>) -> FS;     // compute_random_oracle_challenge: hash-to-field of the byte string (random oracle)
+// ro_chal(bytes): compute_random_oracle_challenge, defined in spec/h2c_spec.rs (first field element of the try-and-increment sequence over bytes || t)
 // scp_eval / scp_coeffs (the succinct check polynomial and its expansion): spec/scp_spec.rs
 // accumulation over the commitments: challenges xi_0, xi_1, ... squeezed one after the other (two per polynomial)
 pub open spec fn ipa_acc_v(cs: Seq<&LabeledCommitment<Commitment>>, vs: Seq<Fr>, z: FS, d: nat, s: SS, k: nat) -> FS decreases k {
